@@ -58,7 +58,7 @@ class StoreWorld:
         self.model = {}
         self.log = []
         self.tokn = 0
-        self.uids = list(gen.UID_POOL[:6])
+        self.uids = list(gen.UID_POOL[:7])
         exts = [".ics", ".vcf"] if backend == "vdir" else [".ics", ".vcf", ".txt"]
         self.names = []
         for e in exts:
